@@ -158,3 +158,14 @@ Proof.
   intros h t d Hd Hz. unfold fix_date_header. rewrite Hd. destruct (Z.eqb_spec d go_zero_time); [contradiction|reflexivity].
 Qed.
 Print Assumptions C08_usable_date_kept.
+
+(* the effect trees this property is stated about — which store / origin / clock operations happen, in which order, under
+   which conditions, and what every path returns — are those /verif/translate derives from the Go source on this run
+   (Generated/SrcEffects.v; equal up to the extensional equality of continuations, ProgEq.peq, which [run] respects) *)
+From HC.Generated Require Import SrcEffects.
+From HC.Proofs Require Import ProgEq TieEffects.
+Theorem C08_source_effects :
+  (forall ctx q rep, peq (src_handle_validation_response ctx q rep) (handle_validation_response ctx q rep)) /\
+  (forall q e k f cc, peq (src_background_revalidate q e k f cc) (background_revalidate q e k f cc)).
+Proof. repeat split; [exact tie_handle_validation_response|exact tie_background_revalidate]. Qed.
+Print Assumptions C08_source_effects.
